@@ -18,16 +18,29 @@ Driver for stream `fees` (C07). One op per line, one observation per line.
                 feeHP feeOR feeNVB feeCF feeNA committee oracle|- notary nblocked acc*
      rec     := N | B | T | S index k (acc idx)^k
      tx      := version scriptLen scriptOk sysFee netFee vub size
-     signers := n (acc scopeNone wit)^n     wit := W hashOk pairs inv ver | M | Q cost o|i|f
-     attrs   := k attr^k   attr := HP | OR scriptOk requestOk gasForResponse | NVB h | CF hashid onchain | NA nkeys | OT typ
+     signers := n (acc scopeNone wit)^n     wit := W hashOk pairs inv ver | M | Q cost o|i|f | NV cost sigOk deposit|- | OV cost
+     attrs   := k attr^k   attr := HP | OR id scriptOk requestOk gasForResponse | NVB h | CF hashid onchain | NA nkeys | OT typ
      pool    := dup conflictsAttrErr balance feeSum oracleErr full
   numbers decimal, flags 0|1, hash id 0 is the transaction itself.
-  pack <maxTx> <maxBlockSize> <maxBlockSysFee> <overhead> <n> (size sysfee)^n   -> <number picked>   (`Admission.applyPolicy`)
+  pack <maxTx> <maxBlockSize> <maxBlockSysFee> <stateRootInHeader> <validator keys hex> <n> (size sysfee)^n
+                                             -> <number picked>   (`Pack.applyPolicyM` with `Pack.defaultWitness`)
+  expsize <sre> <inv-hex> <ver-hex> <count>  -> `Pack.expectedSizeWithoutTx`
+  encblock <version> <prevhash> <merkle> <timestamp> <nonce> <index> <primary> <nextconsensus> <sre> <prevstateroot>
+           <inv> <ver> <k> <tx-hex>^k        -> <length> <sha256 of `Pack.encodeBlock`> <`Pack.expectedBlockSize`>
+  feesvalid <sysfee word> <netfee word>       -> ok | neg-sys | neg-net | too-big   (`FeeFields.feesValid`, uint64 words)
+  needm <size> <feePerByte> <attrFees> <netFee> -> <need> <0|1>              (`FeeFields.needM`, `smallNetFeeM`, int64)
+  relevant <vector of admit>                 -> 1 | 0                        (`Pack.stillRelevant`)
+  scratch <notary> <nbal> (primary secondary balance)^nbal <k> (hash sysFee netFee n acc^n c hash^c oracle|-)^k
+                                             -> verdicts and final content   (`Pack.scratchAdd` from the empty pool)
 -/
 import NeoModel.Base.Proto
 import NeoModel.Model.Fees
 import NeoModel.Model.Admission
-open NeoModel NeoModel.Fees NeoModel.Admission
+import NeoModel.Model.Fees.Block
+import NeoModel.Model.Fees.Native
+import NeoModel.Model.Fees.FeeFields
+import NeoModel.Base.Sha256
+open NeoModel NeoModel.Fees NeoModel.Admission NeoModel.Pack NeoModel.Native
 open NeoModel.Generated.FeeConsts
 
 def chunks (n : Nat) : Nat → Bytes → List Bytes
@@ -83,20 +96,34 @@ def pRec : P Rec := fun ts => do
     pure (.stub idx l, r)
   else none
 
-def pWit : P Wit := fun ts => do
+/-- a witness token; the native ones need the whole transaction to be evaluated. -/
+inductive WTok where
+  | plain (w : Wit)
+  | nv (cost : Nat) (sigOk : Bool) (deposit : Option Nat)
+  | ov (cost : Nat)
+
+def pWit : P WTok := fun ts => do
   let (t, r) ← pTok ts
-  if t == "W" then do
+  if t == "NV" then do
+    let (cost, r) ← pNat r
+    let (ok, r) ← pBit r
+    let (d, r) ← pTok r
+    pure (.nv cost ok d.toNat?, r)
+  else if t == "OV" then do
+    let (cost, r) ← pNat r
+    pure (.ov cost, r)
+  else if t == "W" then do
     let (hok, r) ← pBit r
     let (_pairs, r) ← pHexB r
     let (i, r) ← pHexB r
     let (v, r) ← pHexB r
-    pure (.std hok i v, r)
-  else if t == "M" then pure (.missing, r)
+    pure (.plain (.std hok i v), r)
+  else if t == "M" then pure (.plain .missing, r)
   else if t == "Q" then do
     let (cost, r) ← pNat r
     let (k, r) ← pTok r
     let res : WRes := if k == "o" then .ok cost else if k == "i" then .invalidSig cost else .fail
-    pure (.contract (fun lim => if cost ≤ lim then res else .fail), r)
+    pure (.plain (.contract (fun lim => if cost ≤ lim then res else .fail)), r)
   else none
 
 /-- the `pairs` fields of all `W` witnesses of a line, concatenated (the valid key‖signature pairs). -/
@@ -105,20 +132,21 @@ def collectPairs : List String → Bytes
   | _ :: r => collectPairs r
   | [] => []
 
-def pSigner : P Signer := fun ts => do
+def pSigner : P (Nat × Bool × WTok) := fun ts => do
   let (acc, r) ← pNat ts
   let (sn, r) ← pBit r
   let (w, r) ← pWit r
-  pure (⟨acc, sn, w⟩, r)
+  pure ((acc, sn, w), r)
 
 def pAttr : P (Attr × Option (Nat × Bool)) := fun ts => do
   let (t, r) ← pTok ts
   if t == "HP" then pure ((.highPriority, none), r)
   else if t == "OR" then do
+    let (id, r) ← pNat r
     let (a, r) ← pBit r
     let (b, r) ← pBit r
     let (g, r) ← pNat r
-    pure ((.oracleResponse ⟨a, b, g⟩, none), r)
+    pure ((.oracleResponse ⟨id, a, b, g⟩, none), r)
   else if t == "NVB" then do
     let (h, r) ← pNat r
     pure ((.notValidBefore h, none), r)
@@ -142,7 +170,7 @@ def errName : Err → String
   | .poolConflictsAttr => "pool-conflicts-attr" | .insufficientFunds => "insufficient-funds"
   | .poolConflict => "pool-conflict" | .poolOracle => "pool-oracle" | .oom => "oom"
 
-def runAdmit (ts : List String) : Option String := do
+def parseAdmit (ts : List String) : Option (Chain × Tx × Pool) := do
   let pairs := collectPairs ts
   let ps := chunks 97 pairs.length pairs
   let (height, r) ← pNat ts
@@ -193,12 +221,72 @@ def runAdmit (ts : List String) : Option String := do
                      notaryActive := notaryActive, attrFee := attrFee, blocked := fun a => blocked.contains a,
                      lookup := lookup, committee := committee, oracleHash := oracle, notary := notary,
                      validKey := keyOk, verify := fun k sg => ps.contains (k ++ sg) }
-  let t : Tx := { hash := 0, version := version, scriptLen := scriptLen, scriptOk := scriptOk, sysFee := sysFee, netFee := netFee, validUntil := vub, size := size,
-                  signers := signers, attrs := attrs.map (·.1) }
+  let t0 : Tx := { hash := 0, version := version, scriptLen := scriptLen, scriptOk := scriptOk, sysFee := sysFee, netFee := netFee, validUntil := vub, size := size,
+                   signers := signers.map (fun q => ⟨q.1, q.2.1, .missing⟩), attrs := attrs.map (·.1) }
+  -- the native `verify` witnesses read the transaction (attributes, signers, fees), not its witnesses
+  let t : Tx := { t0 with signers := signers.map fun q =>
+    ⟨q.1, q.2.1, match q.2.2 with
+      | .plain w => w
+      | .nv cost ok dep => nativeWit cost (notaryVerify c t0 dep ok)
+      | .ov cost => nativeWit cost (oracleVerify t0)⟩ }
   let p : Pool := { has := fun _ => dup, conflictsAttrErr := cae, balance := balance, feeSum := feeSum, oracleErr := oerr, full := full }
-  match admitWire c p t with
-  | none => pure "ok"
-  | some e => pure s!"err:{errName e}"
+  pure (c, t, p)
+
+def verdict : Option Err → String
+  | none => "ok"
+  | some e => s!"err:{errName e}"
+
+def runAdmit (ts : List String) : Option String := do
+  let (c, t, p) ← parseAdmit ts
+  pure (verdict (admitWire c p t))
+
+/-- `relevant <same vector as admit>` -> 1 | 0   (`Pack.stillRelevant`; the pool fields are ignored) -/
+def runRelevant (ts : List String) : Option String := do
+  let (c, t, _) ← parseAdmit ts
+  pure (if stillRelevant c t then "1" else "0")
+
+def pInt : P Int
+  | [] => none
+  | t :: r => t.toInt?.map (·, r)
+
+def pPairI : P (Nat × Int) := fun ts => do
+  let (a, r) ← pNat ts
+  let (b, r) ← pInt r
+  pure ((a, b), r)
+
+def pBal : P ((Nat × Nat) × Nat) := fun ts => do
+  let (a, r) ← pNat ts
+  let (b, r) ← pNat r
+  let (v, r) ← pNat r
+  pure (((a, b), v), r)
+
+/-- a transaction as the scratch pool sees it: hash sysFee netFee n acc^n c hash^c oracle|- -/
+def pScratchTx : P Tx := fun ts => do
+  let (h, r) ← pNat ts
+  let (sf, r) ← pNat r
+  let (nf, r) ← pNat r
+  let (accs, r) ← pCounted pNat r
+  let (cfs, r) ← pCounted pNat r
+  let (o, r) ← pTok r
+  let oattr : List Attr := match o.toNat? with
+    | some id => [.oracleResponse ⟨id, true, true, 0⟩]
+    | none => []
+  pure ({ hash := h, version := 0, scriptLen := 1, scriptOk := true, sysFee := sf, netFee := nf, validUntil := 0, size := 0,
+          signers := accs.map fun a => ⟨a, false, .missing⟩, attrs := cfs.map Attr.conflicts ++ oattr }, r)
+
+/-- `scratch <notary> <nbal> (primary secondary balance)^nbal <k> tx^k`
+    -> the verdicts of adding the transactions one after the other to an empty pool of capacity k, then the
+       hashes the pool holds in the end (`Pack.scratchAdd`) -/
+def runScratch (ts : List String) : Option String := do
+  let (notary, r) ← pNat ts
+  let (bals, r) ← pCounted pBal r
+  let (txs, r) ← pCounted pScratchTx r
+  if !r.isEmpty then none
+  let bal := fun (q : Nat × Nat) => ((bals.find? (·.1 == q)).map (·.2)).getD 0
+  let (vs, sp) := txs.foldl (fun (acc : List String × List Tx) t =>
+    let res := scratchAdd notary bal acc.2 t
+    (acc.1 ++ [verdict res.1], res.2)) ([], [])
+  pure (String.intercalate "," vs ++ " " ++ String.intercalate "," (((sp.map (·.hash)).mergeSort (· ≤ ·)).map toString))
 
 def step (s : Unit) (ws : List String) : Unit × String :=
   match ws with
@@ -257,15 +345,58 @@ def step (s : Unit) (ws : List String) : Unit × String :=
       | .fail => (s, "fail")
     | _, _, _, _, _, _, _, _ => (s, "bad-op")
   | "admit" :: ts => (s, (runAdmit ts).getD "bad-op")
+  | "relevant" :: ts => (s, (runRelevant ts).getD "bad-op")
+  | "scratch" :: ts => (s, (runScratch ts).getD "bad-op")
   | "pack" :: ts =>
     let r : Option String := do
       let (maxTx, r) ← pNat ts
       let (mbs, r) ← pNat r
-      let (mbf, r) ← pNat r
-      let (ov, r) ← pNat r
-      let (txs, r) ← pCounted pPair r
+      let (mbf, r) ← pInt r
+      let (sre, r) ← pBit r
+      let (vals, r) ← pHexB r
+      let (txs, r) ← pCounted pPairI r
       if !r.isEmpty then none
-      pure s!"{(applyPolicy ⟨maxTx, mbs, mbf, ov⟩ txs).length}"
+      let w := defaultWitness (chunks 33 vals.length vals)
+      pure s!"{(applyPolicyM ⟨maxTx, mbs, mbf, sre, w.1, w.2⟩ txs).length}"
+    (s, r.getD "bad-op")
+  | ["feesvalid", a, b] =>
+    match a.toNat?, b.toNat? with
+    | some a, some b =>
+      (s, match FeeFields.feesValid a b with
+          | none => "ok"
+          | some .negSys => "neg-sys"
+          | some .negNet => "neg-net"
+          | some .tooBig => "too-big")
+    | _, _ => (s, "bad-op")
+  | ["needm", size, fpb, af, net] =>
+    match size.toNat?, fpb.toInt?, af.toInt?, net.toInt? with
+    | some size, some fpb, some af, some net =>
+      let need := FeeFields.needM size fpb af
+      (s, s!"{need} {if FeeFields.smallNetFeeM net need then 1 else 0}")
+    | _, _, _, _ => (s, "bad-op")
+  | ["expsize", sre, i, v, n] =>
+    match bit sre, Hex.decode i, Hex.decode v, n.toNat? with
+    | some sre, some i, some v, some n => (s, s!"{expectedSizeWithoutTx sre i v n}")
+    | _, _, _, _ => (s, "bad-op")
+  | "encblock" :: ts =>
+    let r : Option String := do
+      let (version, r) ← pNat ts
+      let (prev, r) ← pHexB r
+      let (merkle, r) ← pHexB r
+      let (tstamp, r) ← pNat r
+      let (nonce, r) ← pNat r
+      let (index, r) ← pNat r
+      let (primary, r) ← pNat r
+      let (nextc, r) ← pHexB r
+      let (sre, r) ← pBit r
+      let (psr, r) ← pHexB r
+      let (i, r) ← pHexB r
+      let (v, r) ← pHexB r
+      let (txs, r) ← pCounted pHexB r
+      if !r.isEmpty then none
+      let h : Header := ⟨version, prev, merkle, tstamp, nonce, index, primary, nextc, sre, psr, i, v⟩
+      let enc := encodeBlock h txs
+      pure s!"{enc.length} {Hex.encode (Sha256.hash enc)} {expectedBlockSize sre i v (txs.map List.length)}"
     (s, r.getD "bad-op")
   | _ => (s, "bad-op")
 
